@@ -153,6 +153,15 @@ impl C08 {
                 ensure(got.is_some() == expect, || format!("IndexedCoproduct::new over labels (sizes {:?} -> {}, {} values) accepted = {}", sizes, declared, vl, got.is_some()))?;
                 let got = IndexedCoproduct::from_semifinite(SemifiniteFunction(Arr(sizes.clone())), lv);
                 ensure(got.is_some() == (vl == sum), || "from_semifinite over labels".to_string())?;
+                // nested: the values are themselves a segmented array with `vl` segments of 0, 1, 2, 0, 1, 2, ... elements;
+                // its length as a value is its number of segments, whatever their sizes
+                let inner_sizes: Vec<usize> = (0..vl).map(|k| k % 3).collect();
+                let inner_total: usize = inner_sizes.iter().sum();
+                let inner = IndexedCoproduct::new(ff(&inner_sizes, inner_total + 1), ff(&vec![0; inner_total], 3)).ok_or("inner segmented array refused")?;
+                let got = IndexedCoproduct::new(ff(sizes, declared), inner.clone());
+                ensure(got.is_some() == expect, || format!("IndexedCoproduct::new(sizes {:?} -> {}, a segmented array of {} segments with sizes {:?}) accepted = {}", sizes, declared, vl, inner_sizes, got.is_some()))?;
+                let got = IndexedCoproduct::from_semifinite(SemifiniteFunction(Arr(sizes.clone())), inner);
+                ensure(got.is_some() == (vl == sum), || format!("from_semifinite(sizes {:?}, a segmented array of {} segments) accepted = {}", sizes, vl, got.is_some()))?;
                 Ok(!expect)
             }
             "basic" => {
